@@ -31,3 +31,16 @@ Print Assumptions C10_crypto_prefix_states_are_run_states.
 Theorem C10_crypto_oracle_is_expanded_equality : forall a b, vequiv a b = true <-> vsem a = vsem b.
 Proof. exact vequiv_is_equal_semantics. Qed.
 Print Assumptions C10_crypto_oracle_is_expanded_equality.
+
+(* IOS numbering core: an approve cut after any number k of its numbered commands leaves an ACL
+   (again without a line twice) from which every run of the tool — for every edit script between
+   that ACL and the same target — is accepted and ends in an ACL that filters like the target. *)
+From Coq Require Import NArith.
+From NA Require Import Cisco.IosAcl Cisco.IosAclFresh Cisco.IosAclMoves Cisco.IosAclEquiv Cisco.IosAclResume.
+Theorem C10_ios_acl_resume :
+  forall m cs k lk, nodupA m -> nodupB m -> short_runs m 0 -> diff_ios m = Some cs ->
+  iexec_all (reseq (listA m)) (firstn k cs) = Some lk ->
+  forall m' cs', listA m' = map snd lk -> listB m' = listB m -> short_runs m' 0 -> diff_ios m' = Some cs' ->
+  exists l', iexec_all (reseq (listA m')) cs' = Some l' /\ sw_equiv (rules (listB m)) (rules (map snd l')).
+Proof. exact ios_acl_resume. Qed.
+Print Assumptions C10_ios_acl_resume.
